@@ -101,3 +101,43 @@ Theorem C05_horseshoe_strength :
 Proof. exact horseshoe_def. Qed.
 Print Assumptions C05_horseshoe_strength.
 
+
+(* ---- sign conventions pinned on the simplest wing (Real/SignPin.v): one flat rectangular panel of chord c and span b,
+   spanwise index increasing with y, not symmetric; |alpha| < 90 deg.  The models composed here (collocation and force
+   points, vortex lattice, kernels, normals, right-hand side, residual, velocities, Kutta-Joukowski force) are the ones
+   executed against the implementation by the streams; the oracle AeroPoint.one-panel-sign-conventions checks the same
+   conclusions on the implementation. ---- *)
+From OAS Require Import SignPin.
+Theorem C05_one_panel_influence_coefficient_positive :
+  forall c b, 0 < c -> 0 < b -> forall alpha, 0 < cos (alpha * PI / 180) ->
+    0 < chain_aic 1 1 false true alpha (rect c b) 0 0.
+Proof. exact aic_pos. Qed.
+Print Assumptions C05_one_panel_influence_coefficient_positive.
+
+Theorem C05_one_panel_circulation :
+  forall c b, 0 < c -> 0 < b -> forall alpha, 0 < cos (alpha * PI / 180) -> forall beta v (G : nat -> R),
+    chain_residual 1 1 false true alpha beta v (rect c b) G 0 = 0 ->
+    G 0%nat = - (v * sin (alpha * PI / 180) * cos (beta * PI / 180)) / chain_aic 1 1 false true alpha (rect c b) 0 0.
+Proof. exact circulation_value. Qed.
+Print Assumptions C05_one_panel_circulation.
+
+Theorem C05_one_panel_circulation_negative_at_positive_alpha :
+  forall c b, 0 < c -> 0 < b -> forall alpha, 0 < cos (alpha * PI / 180) -> forall beta v (G : nat -> R),
+    0 < v -> 0 < cos (beta * PI / 180) -> 0 < sin (alpha * PI / 180) ->
+    chain_residual 1 1 false true alpha beta v (rect c b) G 0 = 0 -> G 0%nat < 0.
+Proof. exact circulation_negative_at_positive_alpha. Qed.
+Print Assumptions C05_one_panel_circulation_negative_at_positive_alpha.
+
+Theorem C05_one_panel_lift_positive_at_positive_alpha :
+  forall c b, 0 < c -> 0 < b -> forall alpha, 0 < cos (alpha * PI / 180) -> forall rho beta v (G : nat -> R),
+    0 < rho -> 0 < v -> 0 < cos (beta * PI / 180) -> 0 < sin (alpha * PI / 180) ->
+    chain_residual 1 1 false true alpha beta v (rect c b) G 0 = 0 -> 0 < force c b alpha rho beta v G 2.
+Proof. exact lift_force_positive_at_positive_alpha. Qed.
+Print Assumptions C05_one_panel_lift_positive_at_positive_alpha.
+
+(* non-vacuity: the tangency condition of the one-panel wing has a solution *)
+Theorem C05_one_panel_solution_exists :
+  forall c b, 0 < c -> 0 < b -> forall alpha, 0 < cos (alpha * PI / 180) -> forall beta v,
+    exists G : nat -> R, chain_residual 1 1 false true alpha beta v (rect c b) G 0 = 0.
+Proof. exact circulation_exists. Qed.
+Print Assumptions C05_one_panel_solution_exists.
